@@ -7,7 +7,7 @@
 import Rox.Lemmas.BufUtf8
 import Rox.Lemmas.TokSpec
 import Rox.Lemmas.BInv4
-import Rox.Props.C06
+import Rox.Props.C06Base
 import Rox.Lemmas.RefSpec
 
 namespace Rox.Lemmas
